@@ -35,6 +35,8 @@ namespace {
       std::function<std::vector<const void*>()> rpost;      // the value of it-- from the last position down to begin()
       std::function<std::vector<const void*>()> fwalk, rwalk; // one iterator object: read through it, step it with it++; / it--; , read again
       std::function<std::vector<bool>()> eqd, eqo, bend;    // iterator equality: same position, neighbouring positions, begin/end
+      // spec/IprIter.tla: one iterator object starting at begin() is put through the operations named; the answer of each
+      std::function<std::vector<const void*>(const std::vector<std::string>&, std::vector<long>&)> run_iter;
       std::function<std::size_t()> hsize;                   // helper size (or size)
       std::function<const void*(std::size_t)> hat;          // helper operator[] (or at)
       std::map<const void*, int> ident;
@@ -106,6 +108,33 @@ namespace {
       };
       sj.bend = [seq] {
          return std::vector<bool>{ seq->begin() == seq->position(0), seq->end() == seq->position(seq->size()), seq->begin() == seq->end() };
+      };
+      sj.run_iter = [seq, key](const std::vector<std::string>& ops, std::vector<long>& flags) {
+         // answers that are elements come back as identities (nullptr = refused), the others in `flags` (-7 = not a flag)
+         std::vector<const void*> out;
+         auto it = seq->begin();
+         for (auto& op : ops) {
+            const void* r = nullptr;
+            long f = -7;
+            try {
+               if (op == "deref") r = key(*it);
+               else if (op == "arrow") r = key(*it.operator->());
+               else if (op == "copy") { auto c = it; r = key(*c); }
+               else if (op == "inc") r = key(*++it);
+               else if (op == "dec") r = key(*--it);
+               else if (op == "pinc") { auto old = it++; r = key(*old); }
+               else if (op == "pdec") { auto old = it--; r = key(*old); }
+               else if (op == "incs") { it++; f = 0; }
+               else if (op == "decs") { it--; f = 0; }
+               else if (op == "eqb") f = (it == seq->begin() and not (it != seq->begin())) ? 1 : (it != seq->begin() and not (it == seq->begin())) ? 0 : -8;
+               else if (op == "eqe") f = (it == seq->end() and not (it != seq->end())) ? 1 : (it != seq->end() and not (it == seq->end())) ? 0 : -8;
+               else throw vh::HarnessError("unknown iterator operation " + op);
+            }
+            catch (const std::logic_error&) { r = nullptr; f = -7; }
+            out.push_back(r);
+            flags.push_back(f);
+         }
+         return out;
       };
       sj.hsize = sj.size;
       sj.hat = sj.at;
@@ -506,6 +535,67 @@ namespace {
       std::cout << vj::dump(ev) << "\n";
    }
 
+   // spec/IprIterMC.tla: every sequence of iterator operations, on a sequence of n elements of every implementation
+   int do_replay_iter(std::size_t n)
+   {
+      std::ios::sync_with_stdio(false);
+      std::vector<std::pair<std::string, std::shared_ptr<Subject>>> subjects;
+      for (auto& kind : kinds()) {
+         auto sj = make_subject(kind, n);
+         if (sj == nullptr) continue;
+         if (sj->growable) {
+            for (std::size_t k = sj->ident.size() + 1; k <= n; ++k) { auto p = sj->push(); sj->ident[p] = static_cast<int>(k); }
+         }
+         if (sj->size() != n or not sj->run_iter) continue;
+         subjects.emplace_back(kind, std::shared_ptr<Subject>(std::move(sj)));
+      }
+      std::string line;
+      long behaviours = 0, steps = 0, failed = 0, printed = 0;
+      std::set<std::string> classes;
+      std::map<std::string, long> fail_keys;
+      std::string sample;
+      while (std::getline(std::cin, line)) {
+         std::string text = line.rfind("<<\"BEH\"", 0) == 0 ? tlc_unescape(line) : line;
+         if (text.empty() or text[0] != '[') continue;
+         Value beh = vj::parse(text);
+         if (sample.empty()) sample = text;
+         std::vector<std::string> ops;
+         for (auto& st : *beh.a) ops.push_back(st.at("op").as_str());
+         for (auto& [kind, sj] : subjects) {
+            ++behaviours;
+            std::vector<long> flags;
+            auto got = sj->run_iter(ops, flags);
+            for (std::size_t k = 0; k < ops.size(); ++k) {
+               ++steps;
+               classes.insert(kind + ":" + ops[k]);
+               long want = beh.at(k).at("r").as_int();
+               bool elementwise = ops[k] != "eqb" and ops[k] != "eqe" and ops[k] != "incs" and ops[k] != "decs";
+               long have = elementwise ? (got[k] == nullptr ? -1 : id_of(*sj, got[k])) : flags[k];
+               if (have == want) continue;
+               ++failed;
+               auto key = kind + ":" + ops[k];
+               ++fail_keys[key];
+               if (printed++ < 30) {
+                  auto f = Value::object();
+                  auto e = Value::object(), g = Value::object();
+                  e.set(ops[k], want); g.set(ops[k], have);
+                  f.set("key", key).set("kind", kind).set("len", static_cast<long>(n)).set("step", static_cast<long>(k + 1)).set("beh", beh)
+                     .set("expected", e).set("got", g);
+                  std::cout << "FAIL " << vj::dump(f) << "\n";
+               }
+               break;
+            }
+         }
+      }
+      auto sm = Value::object();
+      auto fk = Value::object();
+      for (auto& [k, v] : fail_keys) fk.set(k, v);
+      sm.set("behaviours", behaviours).set("steps", steps).set("failed", failed).set("fail_keys", fk)
+         .set("classes", static_cast<long>(classes.size())).set("sample", sample).set("subjects", static_cast<long>(subjects.size()));
+      std::cout << "SUMMARY " << vj::dump(sm) << "\n";
+      return 0;
+   }
+
    int do_record()
    {
       // -- sequences of every implementation, sizes 0..5
@@ -691,6 +781,7 @@ int main(int argc, char** argv)
    std::string mode = argc > 1 ? argv[1] : "";
    try {
       if (mode == "replay") return do_replay();
+      if (mode == "replay-iter") return do_replay_iter(argc > 2 ? static_cast<std::size_t>(std::atoi(argv[2])) : 3);
       if (mode == "record") return do_record();
    }
    catch (const std::logic_error& e) {
